@@ -737,7 +737,12 @@ func refreshRing(r *ringDescriber) error {
 			newHostID := h.HostID()
 			existing, ok := prevHosts[newHostID]
 			if !ok {
-				return fmt.Errorf("get existing host=%s from prevHosts: %w", h, ErrCannotFindHost)
+				// The host was not in the ring before this refresh: it was added while
+				// processing an earlier row with the same host_id (or concurrently by
+				// the control connection). Keep the first row and go on, so that the
+				// remaining rows and the removal of vanished hosts still take effect.
+				r.session.logger.Printf("gocql: ignoring duplicate row for host_id %s: %s", newHostID, h)
+				continue
 			}
 			if h.connectAddress.Equal(existing.connectAddress) && h.nodeToNodeAddress().Equal(existing.nodeToNodeAddress()) {
 				// no host IP change
